@@ -27,8 +27,10 @@ REJECT = (TypeError, ValueError, KeyError)
 class Model:
   """The real container type a TypedTree configuration talks about."""
 
-  def __init__(self, kind: str):
-    data, r = tlc.export_json('TypedTreeExport', f'C03_export_{kind}.cfg', name=f'c03-export-{kind}', timeout=300)
+  def __init__(self, kind: str, partial: bool = False):
+    # (the schema of the dict kind depends on the mode: its own export configuration)
+    tag = 'dictp' if kind == 'dict' and partial else kind
+    data, r = tlc.export_json('TypedTreeExport', f'C03_export_{tag}.cfg', name=f'c03-export-{tag}', timeout=300)
     self.export_result = r
     self.kind = data['kind']
     assert self.kind == kind
@@ -95,7 +97,7 @@ class Model:
     else:
       kvs = dict((vs.key_code(k), vs.encode(c.sym_getattr(k))) for k in c.sym_keys())
     for k, _ in self.spec_rec['fields']:
-      if k != 0 and k not in kvs:
+      if k > 0 and k not in kvs:
         kvs[k] = vs.V('missing')
     return vs.V('dict', 0, [[k, kvs[k]] for k in sorted(kvs)])
 
@@ -560,7 +562,7 @@ def replay_behaviour(chk, m: Model, partial: bool, steps, hits: Dict[str, int], 
 
 def replay_simulated(chk, kind: str, partial: bool, cfg: str, num: int, depth: int, seed: int,
                      model: Optional[Model] = None) -> Dict[str, int]:
-  m = model or Model(kind)
+  m = model or Model(kind, partial)
   behaviours, r = tlc.simulate('TypedTree', cfg, num=num, depth=depth, seed=seed, name=f'c03-{cfg[:-4]}', timeout=1500)
   chk.add_tlc(r, count_states=False)
   if not r.ok:
@@ -593,7 +595,7 @@ def mirror_search(chk, cfg: str, kind: str, partial: bool, hits: Dict[str, int],
   steps = [tlc.Step(s['action'], [], s['state']) for s in (r.error_trace or [])]
   chk.require(len(steps) >= 2 and all('act' in s.state for s in steps), 'mirror counter-example could not be parsed')
   chk.notes['mirror'] = {'violated': r.violated, 'calls': [_show(list(s.state['act'])) for s in steps[1:]]}
-  replay_behaviour(chk, model or Model(kind), partial, steps, hits, cfg, mirror=True)
+  replay_behaviour(chk, model or Model(kind, partial), partial, steps, hits, cfg, mirror=True)
   return r
 
 
@@ -613,7 +615,7 @@ def replay_file(chk, path: str) -> None:
   d = rec['detail']
   steps = [tlc.Step('replay', [], dict(b)) for b in d['behaviour']]
   hits: Dict[str, int] = {}
-  replay_behaviour(chk, Model(d['kind']), bool(d['partial_ctor']), steps, hits, d.get('cfg', 'replay'),
+  replay_behaviour(chk, Model(d['kind'], bool(d['partial_ctor'])), bool(d['partial_ctor']), steps, hits, d.get('cfg', 'replay'),
                    mirror=bool(d.get('mirror')))
   chk.notes['action_outcome_hits'] = hits
   chk.states = max(chk.states, len(steps))
